@@ -167,6 +167,17 @@ func (g *gen) encRun(blocks []*Item, level int) *jn {
 			groups = append(groups, group{l, []*Item{b}})
 		}
 	}
+	// sibling fan-out at this label level (histogram: by header length class)
+	{
+		cls := "labels<4"
+		if k >= manyLabelsMin {
+			cls = "labels>=4"
+		}
+		g.f(fmt.Sprintf("json:label-level-fanout(%s):%d", cls, min(len(groups), 5)))
+		if level == k-1 && len(groups) > 1 {
+			g.f(fmt.Sprintf("json:innermost-label-level-has-siblings(%s)", cls))
+		}
+	}
 	if len(groups) > 1 && g.r.Chance(0.4) || g.r.Chance(0.1) {
 		// array of label objects, each holding one or more consecutive groups
 		g.f("json:label-array")
@@ -206,7 +217,11 @@ func (g *gen) encMembers(c *Cfg) []jm {
 			len(c.Items[j].Labels) == len(it.Labels) {
 			j++
 		}
-		if j-i > 1 && g.r.Chance(0.5) {
+		pMerge := 0.5
+		if len(it.Labels) >= manyLabelsMin {
+			pMerge = 0.9 // long headers: the siblings of a label level share one object
+		}
+		if j-i > 1 && g.r.Chance(pMerge) {
 			var run []*Item
 			for k := i; k < j; k++ {
 				run = append(run, &c.Items[k])
